@@ -188,8 +188,11 @@ class VariedLayout(mr.Layout):
     def _dollar(self, line):
         if self.spec.get('dollar') and self._next() % 3 == 0:
             self.applied.add('dollar-comment')
+            # (a $ ends the data wherever it stands: no blank is needed
+            # between the last entry and the comment)
             return line + ['  $ a comment', ' $comment with = and ( )',
-                           '$', ' $ 1 2 3 imp:n=0'][self._next() % 4]
+                           '$', ' $ 1 2 3 imp:n=0', '$glued to the last entry',
+                           '$ u=3 imp:n=0 fill=9'][self._next() % 6]
         return line
 
     def _inner_comment(self):
